@@ -3,7 +3,7 @@ fitted values rebuilt first, Gaussian blocks before the precision blocks that co
 floating-point linear algebra with random draws: their distributional correctness is not expressible as a pre/post-condition here
 (bounded oracle harness native/c08.py)."""
 import z3
-from pyvc.spec import contract, TObj, TInt, TBool
+from pyvc.spec import contract, TObj, TInt, TBool, Using
 
 IMPL = "batchie.models.sparse_combo.LegacySparseDrugComboImpl"
 BLOCKS = ["_alpha_step", "_W0_step", "_V0_step", "_W_step", "_V2_step", "_V1_step",
@@ -43,3 +43,102 @@ def _sweep(a, ret, st):
 
 
 ms.ensures("sweep", _sweep)
+
+
+# ---- _alpha_step: under the default options (fake_intercept=True) the global intercept is HELD at the mean of the transformed
+# observations, and the running fitted values follow it (Mu' = Mu + (alpha' - alpha)); with no data nothing changes.
+from pyvc.spec import TReal, TSeq
+from pyvc.lib.arrays import TArr
+from pyvc.values import Real, Int
+from pyvc.lib.np_real import mean1
+
+T_alpha = TObj(IMPL, fields={"alpha": TReal, "fake_intercept": TBool, "y": TSeq(TReal), "Mu": TArr(Real)})
+al = contract(IMPL + "._alpha_step@default", params=[("self", T_alpha)])
+al.requires(lambda a: [a.self.fields["fake_intercept"] == True, a.self.fields["Mu"].shape[0] == a.self.fields["y"].seq.length])  # noqa: E712
+
+
+def _al_post(a, ret, st):
+    o, old = a.self.fields, a.old.self
+    n = old.y.length
+    k = z3.Int("k!al")
+    return [("no_data_nothing_changes", z3.Implies(n == 0, o["alpha"] == old.alpha)),
+            ("intercept_is_the_mean_of_the_observations", z3.Implies(n > 0, o["alpha"] == mean1(old.y.cols, n))),
+            ("fitted_values_follow_the_intercept", z3.And(o["Mu"].shape[0] == old.Mu.shape[0], z3.ForAll([k], z3.Implies(z3.And(k >= 0, k < n),
+                z3.Select(o["Mu"].data, k) == z3.Select(old.Mu.data, k) + (o["alpha"] - old.alpha)), patterns=[z3.Select(o["Mu"].data, k)]))),
+            ("observations_untouched", z3.And(o["y"].seq.length == n))]
+
+
+al.ensures("alpha", _al_post)
+
+
+# ---- _prec_W0_step: the conjugate-gamma update of the per-sample-intercept precision is parameterised as the documented conditional and
+# the stored precision stays inside its documented bounds [1/sqrt(1+n_obs), 1e6]
+from pyvc.lib.np_real import sumr, sq, sqrt_r
+T_pw0 = TObj(IMPL, fields={"a0": TReal, "b0": TReal, "n_clines": TInt, "W0": TArr(Real), "tau0": TReal, "y": TSeq(TReal)})
+pw = contract(IMPL + "._prec_W0_step@bounds", params=[("self", T_pw0)])
+pw.requires(lambda a: [a.self.fields["b0"] >= 0, a.self.fields["a0"] >= 0, a.self.fields["n_clines"] >= 0, a.self.fields["W0"].shape[0] == a.self.fields["n_clines"]])
+
+
+def _pw_post(a, ret, st):
+    o, old = a.self.fields, a.old.self
+    draws = st.ctx.ghost.get("legacy_draws", [])
+    n = z3.ToReal(old.y.length)
+    lo = 1 / sqrt_r(1 + n)
+    out = [("exactly_one_gamma_draw", z3.BoolVal(len(draws) == 1 and draws[0][0] == "gamma"))]
+    if len(draws) == 1:
+        shape, scale = draws[0][1]
+        A = st.ctx.ghost.get("last_sq_array")
+        k = z3.Int("k!pw")
+        out.append(("shape_is_prior_shape_plus_half_the_number_of_samples", shape == old.a0 + 0.5 * z3.ToReal(old.n_clines)))
+        if A is None:
+            out.append(("rate_uses_the_sum_of_squares", z3.BoolVal(False)))
+        else:
+            out.append(("scale_is_one_over_prior_rate_plus_half_the_sum_of_squared_intercepts", z3.And(
+                A.shape[0] == old.W0.shape[0], z3.ForAll([k], z3.Implies(z3.And(k >= 0, k < A.shape[0]), z3.Select(A.data, k) == sq(z3.Select(old.W0.data, k))), patterns=[z3.Select(A.data, k)]),
+                scale == 1 / (old.b0 + 0.5 * sumr(A.data, A.shape[0]) + 0.001))))
+    out.append(("precision_stays_inside_its_bounds", z3.And(o["tau0"] >= lo, o["tau0"] <= 1000000, lo > 0, lo <= 1)))
+    return out
+
+
+def sum_nonneg(f, n):
+    """lemma (proved by SMT induction in props/C08.lemmas): a sum of non-negative terms is non-negative"""
+    k = z3.Int("k!sn")
+    return z3.Implies(z3.And(n >= 0, z3.ForAll([k], z3.Implies(z3.And(k >= 0, k < n), z3.Select(f, k) >= 0), patterns=[z3.Select(f, k)])), sumr(f, n) >= 0)
+
+
+pw.after("bn", lambda v: [("rate_is_at_least_the_prior_rate", Using([sum_nonneg(v.ghost["last_sq_array"].data, v.ghost["last_sq_array"].shape[0])], v.bn >= v.self.fields["b0"]))])
+pw.ensures("tau0", _pw_post)
+
+
+# ---- _prec_obs_step: observation-noise precision
+T_po = TObj(IMPL, fields={"a0": TReal, "b0": TReal, "prec": TReal, "y": TSeq(TReal), "Mu": TArr(Real), "last_rmse": TReal})
+po = contract(IMPL + "._prec_obs_step@bounds", params=[("self", T_po)])
+po.requires(lambda a: [a.self.fields["b0"] > 0, a.self.fields["a0"] >= 0, a.self.fields["Mu"].shape[0] == a.self.fields["y"].seq.length])
+po.after("bn", lambda v: [("rate_is_at_least_the_prior_rate", Using([sum_nonneg(v.ghost["last_sq_array"].data, v.ghost["last_sq_array"].shape[0])], v.bn >= v.self.fields["b0"]))])
+
+
+def _po_post(a, ret, st):
+    o, old = a.self.fields, a.old.self
+    draws = st.ctx.ghost.get("legacy_draws", [])
+    n = old.y.length
+    nr = z3.ToReal(n)
+    out = [("exactly_one_gamma_draw", z3.BoolVal(len(draws) == 1 and draws[0][0] == "gamma"))]
+    if len(draws) != 1:
+        return out
+    shape, scale = draws[0][1]
+    A = st.ctx.ghost.get("last_sq_array")
+    k = z3.Int("k!po")
+    if A is None:
+        out.append(("without_data_the_prior_is_sampled", z3.And(n == 0, shape == old.a0, scale == 1 / old.b0)))
+        return out
+    resid = lambda kk: z3.Select(old.y.cols, kk) - z3.Select(old.Mu.data, kk)  # noqa
+    out += [("data_present", n > 0),
+            ("shape_is_prior_shape_plus_half_the_number_of_observations", shape == old.a0 + 0.5 * nr),
+            ("scale_is_one_over_prior_rate_plus_half_the_squared_error_of_the_fitted_values", z3.And(
+                A.shape[0] == n, z3.ForAll([k], z3.Implies(z3.And(k >= 0, k < n), z3.Select(A.data, k) == sq(resid(k))), patterns=[z3.Select(A.data, k)]),
+                scale == 1 / (old.b0 + 0.5 * sumr(A.data, n) + 0.001))),
+            ("precision_stays_inside_its_bounds", z3.And(o["prec"] >= 1 / sqrt_r(1 + nr), o["prec"] <= 1000000))]
+    return out
+
+
+po.ensures("prec", _po_post)
